@@ -118,6 +118,19 @@ CLAIMED = {
         "within 16 ulp), the hand-written documented formulas (constants cross-checked with the live docstrings).",
         "Lean 4 proof about definitions regenerated from source (translator) + Float-rendering validation + "
         "formula/series oracle", "DESIGN.md §5 C02"),
+    "C11": (
+        "Machine-checked Lean 4 proof: for an abstract power law with a multiplicative depth function (over any "
+        "ordered field) the k-scaled fitting problem at (E', k cp, b) IS the k=1 problem at (E' pw k, cp, b): "
+        "model values, residuals, chi-square for every mask, the fitted curve and the least-squares minimisers "
+        "correspond, so reported contact point and baseline are unchanged and the modulus is multiplied by "
+        "k^-p; the three shipped power-law model functions, REGENERATED from source, are proved to have exactly "
+        "this scaling (p = 3/2, 2, 2 over the reals); xmin/xmax in measured units (C05). Partial: that lmfit "
+        "reaches the corresponding minimiser for both k is explored by paired fits (k vs 1), which also check "
+        "that every optimiser call starts at k x cp0 and that the caller's parameters are untouched.",
+        "Trusted: Lean kernel, standard axioms, translator (validated in C02), fitter model (correspondence in "
+        "C04/C05), lmfit convergence (explored).",
+        "Lean 4 proof (algebraic equivalence of the two least-squares problems; instantiation at regenerated "
+        "models) + paired-fit oracle", "DESIGN.md §5 C11"),
 }
 
 PENDING_REASON = "check not built yet in this round (planned, see DESIGN.md §8); not claimed until its machinery exists"
